@@ -239,3 +239,22 @@ package eni
 //@   loop 1 invariant !c04backenderr
 //@   loop 2 invariant !c04backenderr
 //@   ensures result != nil ==> c04backenderr
+
+//@ for C01 C04 C07
+//@ # the reply goroutine of the fast path always goes through commit: that is where an owner mark is either handed over
+//@ # to the caller or, when the caller is gone, taken back
+//@ ghost c04cm bool = false
+//@ func Local.Allocate$1
+//@   # assumption (not proved here): the owner mark Allocate set under the lock is still in place when this goroutine gets
+//@   # the lock — only the owner's own DEL clears it, and the daemon serialises the requests of one pod (C04)
+//@   assume l != nil && l.eni != nil && (ipv4 == nil || ipv4.podID == "" || ipv4.podID == cni.PodID) && (ipv6 == nil || ipv6.podID == "" || ipv6.podID == cni.PodID)
+//@   at call Local.commit: ghost c04cm = true
+//@   ensures c04cm
+
+//@ for C07
+//@ # the periodic sync compares the pool with the cloud's answer only when that answer is complete (no lookup error)
+//@ ghost c07loaderr bool = true
+//@ func Local.sync
+//@   requires l != nil && l.cond != nil && l.factory != nil
+//@   at call LoadNetworkInterface: ghost c07loaderr = (result2 != nil)
+//@ guard call syncIPLocked in sync: !c07loaderr
